@@ -367,6 +367,17 @@ pub fn run_lockstep(c: &ProgCase, cmp: Compare, ctx: &mut Ctx) -> Result<LockOut
         }
         // ---------------- structure: the table of open loops and the frame count refine the model's
         // (no loop may linger after the NEXT / FOR that forgets it; abandoned loops do not accumulate)
+        {
+            // between two host calls nothing is being evaluated, whatever the outcome of the segment
+            let p = s.probe(false);
+            if p.nesting_depth != 0 {
+                return Err(v(
+                    "nesting-depth-leak",
+                    format!("depth {}", p.nesting_depth),
+                    format!("segment {seg}: the evaluator's nesting depth is {} at a turn boundary", p.nesting_depth),
+                ));
+            }
+        }
         if real_err.is_none() {
             let p = s.probe(false);
             let real_loops: Vec<String> = p.loops.iter().map(|l| l.symbol.clone()).collect();
